@@ -5,9 +5,19 @@ HERE = os.path.dirname(os.path.dirname(os.path.abspath(__file__)))
 CHECKS = {}
 NA = {}
 exec(open(os.path.join(HERE, 'tools', 'manifest_table.py')).read())
+import sys
+sys.path.insert(0, HERE)
+import ast
+# the table of supporting deciders is read from vf/support.py without importing it (no z3 needed here)
+_src = open(os.path.join(HERE, 'vf', 'support.py')).read()
+_node = [n for n in ast.parse(_src).body if isinstance(n, ast.Assign) and n.targets[0].id == 'SUPPORT'][0]
+SUPPORT = eval(compile(ast.Expression(_node.value), 'support', 'eval'))
 checks = []
 for pid in sorted(CHECKS):
-    c = CHECKS[pid]
+    c = dict(CHECKS[pid])
+    if pid in SUPPORT:
+        c['text'] += ' Hypotheses of the statement decided inside this check by the (quick-tier) deciders of other properties (vf/support.py, DESIGN 2.8): ' + \
+            '; '.join('%s%s - %s' % (r, (' parts %s' % '/'.join(k['only'])) if k.get('only') else '', w) for r, k, w in SUPPORT[pid]) + '.'
     checks.append(dict(property_id=pid, quick_cmd='./check %s --tier quick' % pid,
                        thorough_cmd='./check %s --tier thorough' % pid,
                        evidence_file='evidence/%s.json' % pid,
